@@ -21,6 +21,9 @@ func (k *kase) liveShadow() []int {
 }
 
 func (c *cfgGen) objOfKey(key int) int {
+	if c.st.dyn {
+		return -1 // the handler itself holds no Host: its iterations do
+	}
 	for i, kk := range c.st.keys {
 		if kk == key {
 			return c.objs[i]
@@ -45,8 +48,16 @@ func (k *kase) oracleStep(ev string) {
 	parked := make([]int, len(k.objs))
 	for _, r := range k.reqs {
 		if r.parked {
-			if o := r.cfg.objOfKey(r.at); o >= 0 {
+			if o := k.reqObj(r); o >= 0 {
 				parked[o]++
+				if r.cfg.st.dyn {
+					// the iteration holds its dynamic upstreams in the pool until it returns: the
+					// Host the request counts on must be the pooled one (shared with everybody else)
+					h, refs, ok := reverseproxy.VerifHostsEntry(k.dial(r.at))
+					if !ok || refs < 1 || h != k.objs[o] {
+						k.fail("dynamic-upstream-not-pooled", fmt.Sprintf("after %q: request %d is being sent to dynamic upstream %d but the hosts pool has ok=%v refs=%d sameObject=%v", ev, r.id, r.at, ok, refs, ok && h == k.objs[o]))
+					}
+				}
 			} else {
 				k.fail("request-at-unconfigured-backend", fmt.Sprintf("request %d arrived at backend %d which its configuration does not list", r.id, r.at))
 			}
@@ -84,7 +95,7 @@ func (k *kase) oracleStep(ev string) {
 			}
 		}
 	}
-	if ev == "L" && k.prev != nil {
+	if ev == "L" && k.prev != nil && !k.cur.st.dyn && !k.prev.st.dyn {
 		c := k.cur
 		for i, key := range c.st.keys {
 			if o := k.prev.objOfKey(key); o >= 0 && o != c.objs[i] {
